@@ -226,6 +226,7 @@ func ksAccess(c fiber.Ctx) [][2]string {
 	}
 	for k, v := range c.GetReqHeaders() {
 		if k == "X-B" && len(v) > 0 {
+			out = append(out, [2]string{"GetReqHeaders.key(X-B)", k}) // the map's own key string
 			out = append(out, [2]string{"GetReqHeaders[X-B]", v[0]})
 		}
 	}
@@ -496,8 +497,15 @@ func (w *ksWorld) build(cfg fiber.Config) *fiber.App {
 	app.Get("/fail", func(c fiber.Ctx) error { final(c, nil); return fiber.NewError(418, "teapot") })
 	app.Get("/err", func(c fiber.Ctx) error { final(c, nil); return errors.New("plain") })
 	app.Get("/panic", func(c fiber.Ctx) error { final(c, nil); panic("handler panic") })
+	// a long-lived map of the application, bound on every view request before the per-request variables
+	siteVars := fiber.Map{"site": "acme"}
 	app.Get("/view", func(c fiber.Ctx) error {
 		final(c, nil)
+		if c.Query("site") != "" {
+			if err := c.ViewBind(siteVars); err != nil {
+				return err
+			}
+		}
 		if c.Query("bind") != "" {
 			if err := c.ViewBind(fiber.Map{"user": "user-of-" + strings.Clone(c.Get("X-Op")), "role": strings.Clone(c.Query("bind"))}); err != nil {
 				return err
@@ -574,6 +582,13 @@ func ksGenerate(s *simrt.Sim, nconn int, flashValid string) []*ksReq {
 			if s.Chance(500) {
 				r.kind = "view-bind"
 				path = "/view?bind=" + simrt.PickS(s, "admin", "guest")
+			}
+			if s.Chance(400) {
+				if strings.Contains(path, "?") {
+					path += "&site=1"
+				} else {
+					path += "?site=1"
+				}
 			}
 		case 14:
 			r.kind = "file"
@@ -710,6 +725,9 @@ func ksGenerate(s *simrt.Sim, nconn int, flashValid string) []*ksReq {
 		}
 		if s.Chance(300) {
 			hdr = append(hdr, [2]string{"X-B", "b" + strconv.Itoa(i)})
+			if s.Chance(400) {
+				hdr = append(hdr, [2]string{"X-B", "second-b" + strconv.Itoa(i)}) // the same field twice
+			}
 		}
 		if cookie == "" && s.Chance(400) {
 			cookie = "a=" + simrt.PickS(s, "c1", "cookie-value-long-0123456789")
